@@ -14,7 +14,7 @@ from ..astutil import calls, const, kw, parent_map, short
 from ..kai import interpret, flatten_and, cond_repr, cond_key, cmp_cond
 from ..kutil import Spec, approx_equal, show
 from ..program import AnalysisIncomplete, Func, Partial, norm
-from ..sym import App, Rat, walk_atoms
+from ..sym import App, Rat, Sym, walk_atoms
 
 
 def enclosing_ifs(pm, node):
@@ -271,6 +271,24 @@ def check_binary(prog, rep, m):
                                                          {values, repr(cellr)}):
                     return True
                 tolerant = isinstance(ia, App) and ia.name.split('.')[-1] in ('isclose', 'allclose')
+                if isinstance(ia, App) and ia.name == 'bool' and ia.args and isinstance(ia.args[0], tuple):
+                    # any other element-wise test of (listed value, cell): evaluated - a listed value equal to the cell is a
+                    # member, a different one is not, however close (5 against 5 + 10^-40: closer than any tolerance)
+                    from fractions import Fraction as _F
+                    from ..kutil import CannotEvaluate as _CE, eval_cond_full as _ecf
+                    cellat = App('read', [data, yv, xv])
+                    try:
+                        res_ = []
+                        for cv_, ev_, want_ in ((5, 5, True), (0, 0, True), (5, 7, False), (7, 5, False), (-2, 2, False),
+                                                (5, _F(5) + _F(1, 10 ** 40), False), (_F(5) + _F(1, 10 ** 40), 5, False)):
+                            env_ = {cellat: _F(cv_), Sym(values): _F(ev_), App('arr', [values]): _F(ev_)}
+                            res_.append((cv_, ev_, _ecf(ia.args[0], env_), want_))
+                        wrong = [(str(a_), str(b_)) for a_, b_, g_, w_ in res_ if g_ != w_]
+                        if not wrong:
+                            return True
+                        return ('no', 'the element-wise test inside any(..) is not equality: wrong for (cell, listed value) %s' % wrong[:3])
+                    except _CE:
+                        pass
                 return ('no' if tolerant else 'unknown',
                         'the element-wise test inside any(..) is %s, not `%s == cell`' % (repr(inner)[:80], values))
         # or a flag set by a loop over ALL listed values when one equals the cell
